@@ -30,9 +30,9 @@ impl Kanata {
                 return Ok(());
             }
         }
-        self.cur_keys.extend(self.layout.bm().keycodes());
-        self.overrides
-            .override_keys(&mut self.cur_keys, &mut self.override_states);
+        // Only a key that is pressed at the OS right now may be repeated. `prev_keys` holds exactly
+        // the keys output on the last tick, i.e. after unmod/unshift/caps-word and overrides have
+        // been applied; the raw layout key codes would also contain keys those have removed.
 
         // Prioritize checking the active layer in case a layer-while-held is active.
         let active_held_layers = self.layout.bm().trans_resolution_layer_order();
@@ -43,10 +43,7 @@ impl Kanata {
                 log::debug!("key outs for active layer-while-held: {outputs_for_key:?};");
                 for osc in outputs_for_key.iter().rev().copied() {
                     let kc = osc.into();
-                    if self.cur_keys.contains(&kc)
-                        || self.unshifted_keys.contains(&kc)
-                        || self.unmodded_keys.contains(&kc)
-                    {
+                    if self.prev_keys.contains(&kc) {
                         log::debug!("repeat    {:?}", KeyCode::from(osc));
                         if let Err(e) = write_key(&mut self.kbd_out, osc, KeyValue::Repeat) {
                             bail!("could not write key {e:?}")
@@ -72,10 +69,7 @@ impl Kanata {
             log::debug!("key outs for default layer: {outputs_for_key:?};");
             for osc in outputs_for_key.iter().rev().copied() {
                 let kc = osc.into();
-                if self.cur_keys.contains(&kc)
-                    || self.unshifted_keys.contains(&kc)
-                    || self.unmodded_keys.contains(&kc)
-                {
+                if self.prev_keys.contains(&kc) {
                     log::debug!("repeat    {:?}", KeyCode::from(osc));
                     if let Err(e) = write_key(&mut self.kbd_out, osc, KeyValue::Repeat) {
                         bail!("could not write key {e:?}")
@@ -90,10 +84,7 @@ impl Kanata {
         // and have delegated to defsrc handling.
         log::debug!("checking defsrc output");
         let kc = event.code.into();
-        if self.cur_keys.contains(&kc)
-            || self.unshifted_keys.contains(&kc)
-            || self.unmodded_keys.contains(&kc)
-        {
+        if self.prev_keys.contains(&kc) {
             if let Err(e) = write_key(&mut self.kbd_out, event.code, KeyValue::Repeat) {
                 bail!("could not write key {e:?}");
             }
